@@ -87,8 +87,11 @@ func genTail(t *rapid.T) Tail {
 	}
 	nseg := rapid.IntRange(1, 5).Draw(t, "nseg")
 	for i := 0; i < nseg; i++ {
-		s := Seg{Kind: rapid.SampledFrom([]string{"ascii", "ascii", "multibyte", "long", "empty", "bytes"}).Draw(t, "kind"), Match: true}
+		s := Seg{Kind: rapid.SampledFrom([]string{"ascii", "ascii", "multibyte", "long", "empty", "bytes", "buf4k", "huge"}).Draw(t, "kind"), Match: true}
 		s.N = rapid.SampledFrom([]int{1, 1, 2, 5, 20, 60}).Draw(t, "n")
+		if (s.Kind == "huge" || s.Kind == "buf4k") && s.N > 5 {
+			s.N = 5
+		}
 		if tl.Filter {
 			s.Match = rapid.Bool().Draw(t, "match")
 			if !s.Match && tiny && rapid.Bool().Draw(t, "longgap") {
@@ -99,7 +102,7 @@ func genTail(t *rapid.T) Tail {
 		}
 		if tiny && s.Match && rapid.IntRange(0, 2).Draw(t, "burst") == 0 {
 			s.N = rapid.SampledFrom([]int{60, 120, 250}).Draw(t, "burstn")
-			if s.Kind == "long" {
+			if s.Kind == "long" || s.Kind == "huge" || s.Kind == "buf4k" {
 				s.Kind = "ascii"
 			}
 		}
@@ -150,6 +153,12 @@ func lineContent(kind string, match, filter bool, i int) []byte {
 		return []byte(head + strings.Repeat("€ö日本", 1+i%4) + "é")
 	case "long":
 		return []byte(head + strings.Repeat("0123456789abcdef", 60+i%70))
+	case "buf4k":
+		// around the size of a buffered reader's buffer (4096 including or excluding the terminator)
+		n := 4093 + i%6
+		return []byte(head + strings.Repeat("z", n-len(head)))
+	case "huge":
+		return []byte(head + strings.Repeat("0123456789abcdef", []int{300, 1024, 4096, 2500}[i%4]))
 	case "bytes":
 		b := []byte(head)
 		for k := 0; k < 20+i%13; k++ {
@@ -560,7 +569,7 @@ func evalCase(c Case) lib.Outcome {
 	return o
 }
 
-const ruleText = "8 independent follows per case run concurrently; each: 1-5 pre-existing lines, 1-5 segments of 1..250 appended lines (ASCII, multi-byte, 1-2 KiB, empty, arbitrary bytes), the appended byte stream cut into write() calls at 0-8 generated positions plus up to 3 positions inside a multi-byte character, 0/30/120/250 ms before each write (the reader polls every 100 ms), optional filter regex, ample (10000) or tiny (1-3) delivery queue with consumer pauses, last line optionally written without its newline, held > 2 polls and completed later. Oracle: ample queue: delivered == the complete selected appended lines, byte for byte, once, in order, percentage 100, nothing pre-existing, the partial line only after completion; tiny queue: delivered is an in-order subsequence and the first line after every gap reports < 100. Non-trivial = a write boundary inside a line, a delay >= the poll interval, or lines actually dropped"
+const ruleText = "8 independent follows per case run concurrently; each: 1-5 pre-existing lines, 1-5 segments of 1..250 appended lines (ASCII, multi-byte, 1-2 KiB, around 4096 bytes, 5-64 KiB, empty, arbitrary bytes), the appended byte stream cut into write() calls at 0-8 generated positions plus up to 3 positions inside a multi-byte character, 0/30/120/250 ms before each write (the reader polls every 100 ms), optional filter regex, ample (10000) or tiny (1-3) delivery queue with consumer pauses, last line optionally written without its newline, held > 2 polls and completed later. Oracle: ample queue: delivered == the complete selected appended lines, byte for byte, once, in order, percentage 100, nothing pre-existing, the partial line only after completion; tiny queue: delivered is an in-order subsequence and the first line after every gap reports < 100. Non-trivial = a write boundary inside a line, a delay >= the poll interval, or lines actually dropped"
 
 func TestC04Follow(t *testing.T) {
 	lib.Run(t, lib.Spec[Case]{Prop: "C04", Check: "follow", Rule: ruleText, Gen: genCase, Eval: evalCase})
